@@ -213,6 +213,8 @@ pub const MSG_GAMES: &[&str] = &["th06", "th08", "th09", "th11", "th12", "th17",
 pub const END_GAMES: &[&str] = &["th10", "th12"];
 pub const MISSION_GAMES: &[&str] = &["th095", "th125"];
 pub const ECL_GAMES: &[&str] = &["th06", "th07", "th08", "th09", "th095"];
+/// TH10+ ("modern", stack-based) ECL: compiled and read by truth at the level of raw instructions
+pub const MODERN_ECL_GAMES: &[&str] = &["th10", "th11", "th12", "th128", "th13", "th14", "th15", "th16", "th17", "th18"];
 
 pub fn games_for(fmt: Fmt) -> &'static [&'static str] {
     match fmt { Fmt::Anm => ANM_GAMES, Fmt::Std => STD_GAMES, Fmt::Msg => MSG_GAMES, Fmt::End => END_GAMES, Fmt::Mission => MISSION_GAMES, Fmt::Ecl => ECL_GAMES }
@@ -347,6 +349,29 @@ pub fn gen_file(t: &mut Tape, fmt: Fmt, game: &str, body_stmts: usize) -> GenFil
                 if g == Game::Th095 { out.push_str(&format!("entry {{\n    stage: {},\n    scene: {},\n    face: {},\n    point: {},\n    text: [{}],\n}}\n\n", t.below(12), t.below(9), t.below(5), *t.pick(&[0, 100, 100000]), text.join(", "))); }
                 else { out.push_str(&format!("entry {{\n    stage: {},\n    scene: {},\n    player: {},\n    unknown_1: {},\n    unknown_2: {},\n    point_1: {},\n    point_2: {},\n    furigana: [[{}, {}], [0, 0], [3, 4]],\n    text: [{}],\n}}\n\n", t.below(14), t.below(9), t.below(2), t.below(3), t.below(3), *t.pick(&[0, 1000]), *t.pick(&[0, 5]), t.below(9), t.below(9), text.join(", "))); }
             }
+            out
+        }
+        Fmt::Ecl if g >= Game::Th10 => {
+            // modern (TH10+) ECL: `void name() { .. }` subs over the built-in instruction table, optional meta with the
+            // ANIM / ECLI include lists; no timelines, no sub parameters
+            let lang = cached_lang(game, LanguageKey::Ecl);
+            let mut out = String::new();
+            if t.chance(2, 3) {
+                let anim: Vec<String> = (0..t.below(3)).map(|_| fmt_str_lit(*t.pick(&["enemy.anm", "stgenm01.anm", "ｶﾅ.anm", ""]))).collect();
+                let ecli: Vec<String> = (0..t.below(3)).map(|_| fmt_str_lit(*t.pick(&["default.ecl", "st01mbs.ecl", "表.ecl"]))).collect();
+                out.push_str(&format!("meta {{\n    anim: [{}],\n    ecli: [{}],\n}}\n\n", anim.join(", "), ecli.join(", ")));
+            }
+            let nsubs = 1 + t.below(4);
+            for i in 0..nsubs {
+                let opts = BodyOpts { max_stmts: body_stmts, registers: false, control_flow: true, strings_only_safe: true, neg_times: false };
+                let mut b = RealBody::new(t, &lang, opts, 30000);
+                let n = b.t.below(body_stmts + 1);
+                let body = b.stmts(n, 2, 1);
+                labels.push(b.labels.clone());
+                for f in &b.feats { if !feats.contains(&f.to_string()) { feats.push(f.to_string()); } }
+                out.push_str(&format!("void {}() {{\n{}}}\n\n", if i == 0 { "main".to_string() } else { format!("Sub{}", i) }, body));
+            }
+            feats.push("modern-ecl".to_string());
             out
         }
         Fmt::Ecl => {
